@@ -41,8 +41,8 @@ type bWorld struct {
 	keys    map[string]macaroon.SigningKey
 	tps     []tpParty
 	trusted map[string][]macaroon.EncryptionKey
-	pool    []string // header entries
-	perms   []string // entries that are permission tokens of permLoc under a known key (for the cache family)
+	pool    []string   // header entries
+	perms   []string   // entries that are permission tokens of permLoc under a known key (for the cache family)
 	fams    [][]string // per minted token: its entry followed by the discharges minted for it
 }
 
